@@ -416,7 +416,10 @@ def runOp (K : Keys) (committedKeys : String) (lite : Bool) (skipM0 : Bool) (reh
   | "g.probe" =>
     -- `get_position_counter(&q)` for an arbitrary board `q`: the number of history positions whose (64-bit) hash is `q`'s
     match sess, boardOfRaw (arg 1) with
-    | some ⟨g, _, _, _⟩, some q => (sess, s!"cnt={g.positionCounter q} ## ")
+    | some ⟨g, s, m0, _⟩, some q =>
+      -- M0: the number of history positions with q's position key (placement, side, rights, en-passant square)
+      if m0 && Spec.ValidPos (absPos q) then (sess, s!"cnt={g.positionCounter q} ## cnt={specOccur s (normPos (absPos q))}")
+      else (sess, s!"cnt={g.positionCounter q} ## ")
     | _, _ => (sess, "bad-session ## ")
   | "g.tag" =>
     -- `get_metadata_mut().set_value(key, value)` on the session's game
